@@ -223,6 +223,11 @@ def accumulator_comp(func_node: ast.AST, name: str) -> Optional[ast.expr]:
     with break / continue / return / else, or a while / try around the change, is not recognised.
     """
     defs = local_defs(func_node, name)
+    # counter:  n = 0 ; for t in S: [if c:] n += E      ->   sum(E for t in S if c)
+    plain = [(st_, v_) for st_, v_ in defs if not isinstance(st_, ast.AugAssign)]
+    augs = [st_ for st_, v_ in defs if isinstance(st_, ast.AugAssign)]
+    if len(plain) == 1 and len(augs) == 1 and isinstance(plain[0][1], ast.Constant) and plain[0][1].value == 0 and isinstance(augs[0].op, ast.Add) and isinstance(augs[0].target, ast.Name):
+        return _loop_comp(func_node, name, plain[0][0], augs[0], None, augs[0].value, counter=True)
     if len(defs) != 1 or defs[0][1] is None:
         return None
     dst, dval = defs[0]
@@ -262,6 +267,10 @@ def accumulator_comp(func_node: ast.AST, name: str) -> Optional[ast.expr]:
         key, elt = site.targets[0].slice, site.value
     else:
         return None
+    return _loop_comp(func_node, name, dst, sst, key, elt)
+
+
+def _loop_comp(func_node, name, dst, sst, key, elt, counter: bool = False) -> Optional[ast.expr]:
     # chain of loops / ifs between the definition's statement list and the site
     gens: list[ast.comprehension] = []
     pending_ifs: list[ast.expr] = []
@@ -303,8 +312,10 @@ def accumulator_comp(func_node: ast.AST, name: str) -> Optional[ast.expr]:
     def sub(e: ast.expr) -> ast.expr:
         return _expand_in(func_node, e, scope=outer, stop=loop_targets | {name})
 
-    if key is not None:
-        new: ast.expr = ast.DictComp(key=sub(key), value=sub(elt), generators=gens)
+    if counter:
+        new: ast.expr = ast.Call(func=ast.Name(id="sum", ctx=ast.Load()), args=[ast.GeneratorExp(elt=sub(elt), generators=gens)], keywords=[])
+    elif key is not None:
+        new = ast.DictComp(key=sub(key), value=sub(elt), generators=gens)
     else:
         new = ast.ListComp(elt=sub(elt), generators=gens)
     for g in gens:
@@ -406,6 +417,14 @@ def expand(f: FuncInfo | ast.AST, expr: ast.expr, depth: int = 6, _seen=None) ->
             if not isinstance(n.ctx, ast.Load) or n.id in params or n.id in seen:
                 return n
             defs = local_defs(node, n.id)
+            if len(defs) == 2 and depth > 0 and any(isinstance(st_, ast.AugAssign) for st_, _ in defs):
+                comp = accumulator_comp(node, n.id)
+                if comp is not None:
+                    lp = getattr(comp, "_acc_loop", None)
+                    src = getattr(n, "_src", n)
+                    if lp is None or not any(a is lp for a in ancestors(src)):
+                        return fuse_comprehensions(expand(node, comp, depth - 1, seen | {n.id}))
+                return n
             if len(defs) != 1 or defs[0][1] is None or depth <= 0:
                 return n
             val = defs[0][1]
@@ -854,3 +873,17 @@ def same_node(a: ast.AST, b: ast.AST) -> bool:
     """``a`` and ``b`` stand for the same construct: identical, or copies (expand / inlining)
     of one node of the indexed tree."""
     return a is b or getattr(a, "_src", a) is getattr(b, "_src", b)
+
+
+def raise_conditions(f) -> list[tuple[ast.Raise, list[tuple[ast.expr, bool]]]]:
+    """For every ``raise`` of ``f``: the tests known to hold there, in canonical polarity
+    (``not X`` / ``!=`` / ``is not`` / ``not in`` flipped), whether the rejection is written as
+    ``if bad: raise``, as ``if good: return`` followed by ``raise``, or in an ``else``."""
+    from .paths import canon_test
+
+    node = f.node if isinstance(f, FuncInfo) else f
+    out = []
+    for r in walk_ordered(node):
+        if isinstance(r, ast.Raise):
+            out.append((r, [canon_test(t, pol) for t, pol in enclosing_tests(r, rejections=True)]))
+    return out
